@@ -147,6 +147,15 @@ def parse_frame(f: bytes):
     return p
 
 
+def icmp6_rest(l4: bytes) -> bytes:
+    """what follows type / code / checksum; for a Neighbour Advertisement the flag word is reduced to the two flags the
+    properties state (Solicited, Override): the Router flag and the reserved bits are left free"""
+    r = bytes(l4[4:])
+    if l4[0] == 136 and len(r) >= 4:
+        r = bytes([r[0] & 0x60, 0, 0, 0]) + r[4:]
+    return r
+
+
 def tcp_optlen(f: bytes) -> int:
     p = parse_frame(f)
     return p.doff * 4 - 20 if p is not None and p.proto == 6 and p.app is not None and p.doff >= 5 else 0
@@ -191,7 +200,7 @@ def norm_frame(f: bytes, app_fn=None):
     if p.proto == 1 and l4 is not None and len(l4) >= 4:
         return t + ("icmp4", l4[0], l4[1], csum(l4) == 0, l4[4:])
     if p.proto == 58 and l4 is not None and len(l4) >= 4:
-        return t + ("icmp6", l4[0], l4[1], csum(ps(len(l4)) + l4) == 0, l4[4:])
+        return t + ("icmp6", l4[0], l4[1], csum(ps(len(l4)) + l4) == 0, icmp6_rest(l4))
     return t + ("l4", l4)
 
 
